@@ -126,7 +126,7 @@ Looks(f) ==
   CASE f = "srt" -> {[X0 EXCEPT !.b = b, !.i = i, !.u = u, !.col = c] : b, i, u \in BOOLEAN, c \in Colours}
     [] f = "vtt" -> {[X0 EXCEPT !.tags = t, !.align = a, !.pos = p, !.line = ln, !.voice = v] :
                        t \in TagStacks, a \in {"", "left", "right", "center"}, p \in {"", "10%"}, ln \in {"", "50%"}, v \in {"", "Bob"}}
-    [] f = "ttml" -> {[X0 EXCEPT !.col = c, !.talign = a] : c \in Colours, a \in {"", "left", "right", "center"}}
+    [] f = "ttml" -> {[X0 EXCEPT !.col = c, !.talign = a] : c \in Colours, a \in {"", "left", "right", "center", "start", "end", "justify"}}
     [] f = "ssa" -> {[X0 EXCEPT !.voice = v] : v \in {"", "Bob"}}
     [] f = "stl" -> {[X0 EXCEPT !.jc = j, !.vp = v, !.mnr = m, !.dsc = ds, !.it = it, !.un = un, !.bx = bx] :
                        j \in 0..3, v \in {0, 1, 5, 20, 22, 30}, m \in {11, 23}, ds \in {0, 1}, it, un, bx \in BOOLEAN}
